@@ -70,3 +70,7 @@ add("C17", "property-based testing (Hypothesis): differential check against a di
     "Generated-input search over pairs of independently simulated rank sets sharing a small vocabulary x rank selection (incl. proper subsets of >= 2 ranks) x iteration selection x device filter x long/short names: counts and total durations per name per side are recomputed from the raw entries with the C12 iteration model, diffs = test - control, index = union of names; the five ops_diff classes must be pairwise disjoint, cover every name and match their definitions; a trace compared with itself yields only 'unchanged' and zero differences.",
     "Trusts hv/model/trace.py iterations and the hand-written short names in hv/gen/vocab.py; every trace has >= 1 profiler step; no sync records on stream -1.",
     "DESIGN.md §5 C17")
+add("C11", "Hypothesis rule-based state machine (symbol-table histories vs list+dict model) + differential runs of the loader across hash seeds, parse orders and harness-owned worker schedules",
+    "(a) Generated histories over TraceSymbolTable executed against a list+dict model with the bijection / density / stability invariant after every step. (b) Generated multi-rank file sets loaded in 3-5 child interpreters differing in PYTHONHASHSEED, use_multiprocessing, rank order and worker completion order (injected per-file delays in the forked pool); every rank must decode to its own file's strings and the canonical digests (decoded rows + ten analysis outputs) of all children must be equal.",
+    "Hash seeds, orders and schedules are sampled; completion order is steered by sleeps of 0.25 s granularity in forked workers; add_symbols_mp's numbering order among new symbols is not prescribed.",
+    "DESIGN.md §5 C11")
